@@ -123,8 +123,12 @@ func layNAPTR(n, s int, trailer bool) *layout { // regexp string ends at 256+s, 
 	return &layout{ctx: "NAPTR", at: regionBase + s, dlen: regionBase + n, pre: pre, suf: suf, ai: 0, kind: "exh"}
 }
 
+// anchor: label, then a pointer (ending the region) to a root label: replayed in every layout for every seed (the check's
+// binding self-test starts from its recorded observation)
+var anchor = []byte{1, 0, 0xC1, 1}
+
 func pick(m []byte, tag string, s int, seed uint64, slice int) bool {
-	if slice <= 1 {
+	if slice <= 1 || bytes.Equal(m, anchor) {
 		return true
 	}
 	h := fnv.New64a()
@@ -662,7 +666,7 @@ func exact(b []byte) []byte {
 	return c[:len(c):len(c)]
 }
 
-func childMain(work []item, from int, stall time.Duration) {
+func childMain(work []item, from, skip int, stall time.Duration) {
 	debug.SetMaxStack(48 << 20)
 	out := bufio.NewWriterSize(os.Stdout, 1<<16)
 	mark := func(i int, mode string) {
@@ -706,11 +710,15 @@ func childMain(work []item, from int, stall time.Duration) {
 		}
 		data := it.data()
 		h0 := digest(data)
-		var res [3]obs
-		var hs [3]int
+		res := [3]obs{{kind: "skip"}, {kind: "skip"}, {kind: "skip"}}
+		hs := [3]int{-1, -1, -1}
+		first := 0
+		if i == from {
+			first = skip // the process died in an earlier mode of this case: go on behind it
+		}
 		// a: recovery on, default options, then every read-only use
-		mark(i, "a")
-		{
+		if first <= 0 {
+			mark(i, "a")
 			var o obs
 			msg, site, p := vh.Guard(func() {
 				pk := gopacket.NewPacket(data, layers.LayerTypeDNS, gopacket.Default)
@@ -736,8 +744,8 @@ func childMain(work []item, from int, stall time.Duration) {
 			res[0], hs[0] = o, digest(data)
 		}
 		// b: no recovery, decoder works on our buffer (exact capacity)
-		mark(i, "b")
-		{
+		if first <= 1 {
+			mark(i, "b")
 			var o obs
 			buf := exact(data)
 			msg, site, p := vh.Guard(func() {
@@ -757,8 +765,8 @@ func childMain(work []item, from int, stall time.Duration) {
 			res[1], hs[1] = o, digest(buf)
 		}
 		// c: DecodeFromBytes on a layer that is reused from case to case
-		mark(i, "c")
-		{
+		if first <= 2 {
+			mark(i, "c")
 			var o obs
 			buf := exact(data)
 			msg, site, p := vh.Guard(func() {
@@ -804,9 +812,10 @@ func main() {
 	slice := flag.Int("slice", 1, "replay 1/slice of the exhaustive cases in the layouts other than NAPTR")
 	nrand := flag.Int("rand", 0, "number of seeded random messages")
 	stall := flag.Int("stall", 60, "seconds without progress that count as a hang")
-	maxCrash := flag.Int("maxcrash", 8, "give up after this many crashes / hangs")
+	maxCrash := flag.Int("maxcrash", 9, "give up after this many crashes / hangs")
 	child := flag.Bool("child", false, "(internal)")
 	from := flag.Int("from", 0, "(internal)")
+	skip := flag.Int("skip", 0, "(internal) modes of the first case that are not run")
 	dump := flag.Int("dump", -1, "print the message of work item N as hex and exit")
 	flag.Parse()
 	work := buildWork(*cases, *seed, *slice, *nrand)
@@ -816,7 +825,7 @@ func main() {
 		return
 	}
 	if *child {
-		childMain(work, *from, time.Duration(*stall)*time.Second)
+		childMain(work, *from, *skip, time.Duration(*stall)*time.Second)
 		return
 	}
 	f, err := os.Create(*tracePath)
@@ -834,10 +843,10 @@ func main() {
 		events++
 	}
 	self, _ := os.Executable()
-	start := 0
+	start, skipModes := 0, 0
 	var crashTexts []string
 	for start < len(work) {
-		args := []string{"-child", "-from", strconv.Itoa(start), "-cases", *cases, "-seed", strconv.FormatUint(*seed, 10),
+		args := []string{"-child", "-from", strconv.Itoa(start), "-skip", strconv.Itoa(skipModes), "-cases", *cases, "-seed", strconv.FormatUint(*seed, 10),
 			"-slice", strconv.Itoa(*slice), "-rand", strconv.Itoa(*nrand), "-stall", strconv.Itoa(*stall)}
 		cmd := exec.Command(self, args...)
 		so, _ := cmd.StdoutPipe()
@@ -924,7 +933,12 @@ func main() {
 		ev, _ := json.Marshal(vh.M{"op": "case", "sc": cur, "reg": vh.Ints(it.reg), "a": tup("a"), "b": tup("b"), "c": tup("c"),
 			"ec": ecs, "h": []int{-1, -1, -1, -1}})
 		emit(ev)
-		start = cur + 1
+		// the remaining modes of this case are still run (a crash with recovery on and one without are different findings)
+		if mi := strings.Index("abc", mode); mi < 2 {
+			start, skipModes = cur, mi+1
+		} else {
+			start, skipModes = cur+1, 0
+		}
 		if crashes+hangs >= *maxCrash && start < len(work) {
 			ev, _ := json.Marshal(vh.M{"op": "abort", "sc": start, "left": len(work) - start})
 			emit(ev)
@@ -934,7 +948,7 @@ func main() {
 	}
 	tw.Flush()
 	f.Close()
-	st, _ := json.Marshal(vh.M{"items": len(work), "events": events, "crashes": crashes, "hangs": hangs, "aborted": aborted, "died_with": crashTexts})
+	st, _ := json.Marshal(vh.M{"items": len(work), "events": events, "crashes": crashes, "hangs": hangs, "aborted": aborted, "died_with": append([]string{}, crashTexts...)})
 	fmt.Println(string(st))
 	if hangs > 0 {
 		os.Exit(3)
@@ -963,7 +977,12 @@ func (t *tail) Write(p []byte) (int, error) {
 func (t *tail) String() string { return string(t.head) + "\n...\n" + string(t.last) }
 func (t *tail) fatalLine() string {
 	for _, l := range strings.Split(string(t.head), "\n") {
-		if strings.HasPrefix(l, "fatal error:") || strings.HasPrefix(l, "panic:") || strings.Contains(l, "out of memory") || strings.HasPrefix(l, "runtime: goroutine stack exceeds") {
+		if strings.HasPrefix(l, "fatal error:") {
+			return trim(l)
+		}
+	}
+	for _, l := range strings.Split(string(t.head), "\n") {
+		if strings.HasPrefix(l, "panic:") || strings.Contains(l, "out of memory") || strings.HasPrefix(l, "runtime: goroutine stack exceeds") {
 			return trim(l)
 		}
 	}
